@@ -128,16 +128,18 @@ def containsSub (needle : List UInt8) : List UInt8 → Bool
 /-- the vector `equals` of `write_long_bracket` when the counter is `i`: `]` `=`ⁱ `]`. -/
 def closer (i : Nat) : List UInt8 := 93 :: (List.replicate i 61 ++ [93])
 
-/-- the `loop` of `write_long_bracket`; `fuel` bounds the iterations (the Rust loop is
-unbounded but stops at the latest when the closer is longer than the value, see
-`Lemmas.findLevel_spec`). -/
-def findLevel (v : List UInt8) : Nat → Nat → Nat
+/-- the `loop` of `write_long_bracket` over the byte string `searched`; `fuel` bounds the
+iterations (the Rust loop is unbounded but stops at the latest when the closer is longer than
+the searched bytes, see `Lemmas.findLevel_spec`). -/
+def findLevel (searched : List UInt8) : Nat → Nat → Nat
   | 0, i => i
-  | fuel + 1, i => if containsSub (closer i) v then findLevel v fuel (i + 1) else i
+  | fuel + 1, i => if containsSub (closer i) searched then findLevel searched fuel (i + 1) else i
 
-/-- the level `i` chosen by `write_long_bracket`. -/
+/-- the level `i` chosen by `write_long_bracket`: the closer is searched in `searched` = the
+value followed by the first `]` of the closing delimiter (fix of F14), so a level whose closer
+would be completed by the delimiter itself is skipped as well. -/
 def longLevel (v : List UInt8) : Nat :=
-  findLevel v (v.length + 1) (if v.getLast? == some 93 then 1 else 0)
+  findLevel (v ++ [93]) (v.length + 2) (if v.getLast? == some 93 then 1 else 0)
 
 /-- utils.rs `write_long_bracket`. -/
 def writeLongBracket (v : List UInt8) : Option (List UInt8) :=
@@ -174,16 +176,11 @@ def writeInterpSegment : List UInt8 → List UInt8
      else if needsEscaping c then escape c rest.head?
      else [c]) ++ writeInterpSegment rest
 
-/-! ## the region of finding F14 -/
+/-! ## which form `write_string` takes -/
 
 /-- `write_string v` takes the long-bracket form. -/
 def usesLongBracket (v : List UInt8) : Bool :=
   wantsLongBracket v && (fromUtf8 v).isSome
-
-/-- F14: the value ends with `]` `=`ⁱ where `i` is the chosen level, so the closing
-delimiter `]` `=`ⁱ `]` already matches one byte early, across the end of the content. -/
-def straddles (v : List UInt8) : Bool :=
-  usesLongBracket v && (93 :: List.replicate (longLevel v) 61).isSuffixOf v
 
 /-! ## the hypothesis of the Lua 5.1 theorem -/
 
@@ -201,7 +198,7 @@ def nestedOpen51 (v : List UInt8) : Bool :=
 
 /-- the literal written for `v` stays inside what Lua 5.1 reads back as `v` -/
 def lua51Safe (v : List UInt8) : Bool :=
-  !hasUnicodeEscape v && !straddles v && !nestedOpen51 v
+  !hasUnicodeEscape v && !nestedOpen51 v
 
 /-! # numbers -/
 
